@@ -1,5 +1,4 @@
 use crate::delta::{DiffType, Source, State, StateMachine};
-use crate::utils::path::relativize_path_maybe;
 
 impl StateMachine<'_> {
     #[inline]
@@ -29,12 +28,11 @@ impl StateMachine<'_> {
                 return Ok(true);
             }
 
+            // (the names were taken from the "diff --git" line and are relative already, if so requested)
             if self.minus_file != "/dev/null" {
-                relativize_path_maybe(&mut self.minus_file, self.config);
                 self.minus_file.push_str(" (binary file)");
             }
             if self.plus_file != "/dev/null" {
-                relativize_path_maybe(&mut self.plus_file, self.config);
                 self.plus_file.push_str(" (binary file)");
             }
             return Ok(true);
